@@ -1097,7 +1097,10 @@ def directed_pool() -> dict:
                     break
             else:
                 chunks.append([n])
-        for i, ch in enumerate(chunks):
+        # reserved PATTERNS meet every kind of member (the decorated member names of the C target -- `<name>_bitpacked_` --
+        # depend on both); the keyword pools rotate through the kinds once
+        rotations = range(len(kinds)) if cls == "pattern" else (0,)
+        for i, ch in ((i + r, ch) for r in rotations for i, ch in enumerate(chunks, r * len(chunks))):
             attrs = [_F(kinds[(i + j) % len(kinds)], n) for j, n in enumerate(ch)]
             # after every candidate name: a variable-length array (size_t count; std::vector) and a primitive (std::uint8_t)
             attrs += [_F({"t": "varr", "elem": {"t": "uint", "bits": 16, "cast": "saturated"}, "cap": 2, "incl": True}, "zz_tail_array"), _F(_U8, "zz_tail")]
